@@ -7,7 +7,7 @@ The path universe (`allPaths`) is every path of length `0..depth` over component
 length, then lexicographically (`pathIndex`).  The expression is in prefix notation, one node per
 token: `N` (nothing) `E` (everything) `F:<paths>` `P:<paths>` `G:<f|p>:<dir>=<bits>;…`
 `U` `I` `D` (binary).  A path is `r` (root) or `0.1.2`; `<paths>` is `,`-separated, `-` if empty.
-`<bits>` is the glob's truth table over the universe (character `i` = value on the tail with
+`<bits>` is the truth table of the glob (anchored, file mode) over the universe (character `i` = value on the tail with
 `pathIndex = i`).  Answer: `visit` at every universe path as a directory (`A`, `N`,
 `S<dirs>/<files>` with a set printed as `*`, `-` or sorted ids), joined by `|`, then a space and
 the `matches` bit of every universe path.
